@@ -1,6 +1,6 @@
 (* Props/C03.v — Parsing is idempotent; lax constraints converge in one step.
-   Statements only; proofs in Proofs/LaxProofs.v. *)
-From UV Require Import Parse ConstraintSpec ConstraintProofs LaxProofs.
+   Statements only; proofs in Proofs/LaxProofs.v and Proofs/IdemProofs.v. *)
+From UV Require Import Parse ConstraintSpec ConstraintProofs LaxProofs Stable IdemProofs.
 Open Scope string_scope.
 Open Scope list_scope.
 Open Scope Z_scope.
@@ -62,3 +62,57 @@ Proof. exact dec_round_idem. Qed.
 Theorem C03_lax_max_digits_strict_refuted :
   exists v w, c_lax_max_digits v (PInt 3) = Ok w /\ c_max_digits w (PInt 3) <> Ok w.
 Proof. exact c_lax_max_digits_carry. Qed.
+
+(* ---------------- re-parsing a result (whole types) ----------------
+   Spec/Stable.v: `stable t` — builtin classes, data classes, unions (| and ^) of builtin classes and data
+   classes, negations, constrained scalars and Optional-style rules over a stable origin, homogeneous
+   sequences (list / set / frozenset / variable-length tuple) of stable element types, all with checking
+   (non-lax) constraints; `throwing o` — the default 'throw' policies; `ints_exact t w` — no bool stands
+   where an int is declared (int([True]) returns True: the one result of a converter that is not of the
+   exact declared class; it re-parses to the equal value 1, see C03_bool_for_int_reparses_equal).
+   Everything else the proof needs about w (exact classes of elements, of union results, of rebuilt
+   containers) is derived from the first parse. *)
+
+(* through type_transform(value, T, options), the entry the idempotence oracle drives on the implementation *)
+Theorem C03_reparse_returns_the_result :
+  forall re D fuel o t v w, throwing o -> stable t = true ->
+  type_transform re D fuel o t v = Ok w -> ints_exact t w = true ->
+  type_transform re D fuel o t w = Ok w.
+Proof. exact type_transform_reparse. Qed.
+
+(* through T(value) for a constrained or logical type *)
+Theorem C03_reparse_call :
+  forall re D fuel o t v w, throwing o -> stable t = true ->
+  call_type re D fuel o t v = Ok w -> ints_exact t w = true -> call_type re D fuel o t w = Ok w.
+Proof. exact call_type_reparse. Qed.
+
+(* at any nesting level, from any state of the enclosing context that carries no error: the second parse also
+   leaves the context as it found it *)
+Theorem C03_reparse_nested :
+  forall re D fuel o depth t v s s' w, throwing o -> stable t = true ->
+  transform re D fuel o depth t v s = (s', Ok w) -> ints_exact t w = true ->
+  forall s2, clean s2 -> transform re D fuel o depth t w s2 = (s2, Ok w).
+Proof. exact transform_reparse. Qed.
+
+(* what the first parse returns has the declared classes position by position *)
+Theorem C03_results_are_typed :
+  forall re D fuel o depth t v s s' w, throwing o -> stable t = true ->
+  transform re D fuel o depth t v s = (s', Ok w) -> ints_exact t w = true -> typed t w = true.
+Proof. intros re D fuel o depth t v s s' w Ho Hst H Hi. exact (proj1 (transform_typed re D fuel o depth t v s s' w Ho Hst H Hi)). Qed.
+
+(* non-vacuity: Set[int] with a length constraint, from strings with a duplicate; Optional[int]; and the leak *)
+Definition set_of_int : ty := TRule (Some (TPrim TSet)) [TPrim TInt] false [("max_length", PInt 3, false)] None None None.
+Example C03_reparse_nonvacuous :
+  let w := PSet [PInt 1; PInt 2] in
+  stable set_of_int = true /\ throwing default_options /\
+  type_transform (fun _ _ => false) (fun _ => None) 5 default_options set_of_int (PList [PStr "1"; PInt 2; PStr "1"]) = Ok w /\
+  ints_exact set_of_int w = true /\
+  type_transform (fun _ _ => false) (fun _ => None) 5 default_options set_of_int w = Ok w.
+Proof. repeat split; vm_compute; reflexivity. Qed.
+Example C03_bool_for_int_reparses_equal :
+  let t := TPrim TInt in
+  type_transform (fun _ _ => false) (fun _ => None) 5 default_options t (PList [PBool true]) = Ok (PBool true) /\
+  ints_exact t (PBool true) = false /\
+  type_transform (fun _ _ => false) (fun _ => None) 5 default_options t (PBool true) = Ok (PInt 1) /\
+  py_eq (PBool true) (PInt 1) = true.
+Proof. repeat split; vm_compute; reflexivity. Qed.
